@@ -101,6 +101,79 @@ def probe(h, lang, names, tree, input_types):
     return {"err": None, **E.canon(E.snap_impl(h, vals))}, text
 
 
+def composite_language(h):
+    """base types of h, one unary compound F, primitives wrap / unwrap / idp and polymorphic
+    COMPOSITE operators defined from them (expanded by Expr.primitive())"""
+    import transforge as tf
+    import transforge.type as T
+    hh = C.Hierarchy.from_json(h.to_json())
+    ops = hh.build()
+    Fop = T.TypeOperator("Fc", params=1)
+    scope = {str(ops[i]): ops[i] for i in range(5, 5 + hh.nbase)}
+    scope["Fc"] = Fop
+    wrap = tf.Operator(type=lambda x: x ** Fop(x))
+    unwrap = tf.Operator(type=lambda x: Fop(x) ** x)
+    idp = tf.Operator(type=lambda x: x ** x)
+    scope.update(wrap=wrap, unwrap=unwrap, idp=idp)
+    scope["roundtrip"] = tf.Operator(type=lambda x: x ** x, body=lambda v: unwrap(wrap(v)))
+    scope["twice"] = tf.Operator(type=lambda x: (x ** x) ** x ** x, body=lambda f, v: f(f(v)))
+    scope["wrap2"] = tf.Operator(type=lambda x: x ** Fop(Fop(x)), body=lambda v: wrap(wrap(v)))
+    lang = tf.Language(scope=scope, namespace="https://example.com/c16c#")
+    return lang, [str(ops[i]) for i in range(5, 5 + hh.nbase)]
+
+
+def composite_texts(rng, bases):
+    b = rng.choice(bases)
+    return rng.choice([f"roundtrip (- : {b})", f"twice idp (- : {b})", f"wrap2 (- : {b})",
+                       f"twice roundtrip (- : {b})", f"unwrap (wrap2 (- : {b}))",
+                       f"roundtrip (- : Fc({b}))", f"wrap (roundtrip (- : {b}))"])
+
+
+def typed_expansion(lang, text):
+    """the expanded expression with the type of every node, or the error class"""
+    try:
+        e = lang.parse(text).primitive()
+        e.fix()
+        return e.tree() if hasattr(e, "tree") else str(e)
+    except Exception as ex:   # noqa: BLE001
+        return ("error", type(ex).__name__)
+
+
+def composite_histories(rep, rng, h, n, stats):
+    """histories that EXPAND composite operators (validate, primitive() at some type, graphs),
+    then a probe expansion at another type: as in a fresh identical language"""
+    import re
+    for _ in range(n):
+        lang, bases = composite_language(h)
+        hist = []
+        for _ in range(rng.randint(1, 5)):
+            k = rng.choice(["validate", "expand", "expand", "expand", "parse_only"])
+            t = composite_texts(rng, bases)
+            hist.append((k, t))
+            try:
+                if k == "validate":
+                    lang.validate()
+                elif k == "expand":
+                    lang.parse(t).primitive().fix()
+                else:
+                    lang.parse(t)
+            except Exception:   # noqa: BLE001
+                pass
+        probe = composite_texts(rng, bases)
+        after = typed_expansion(lang, probe)
+        fresh = typed_expansion(composite_language(h)[0], probe)
+        norm = lambda x: re.sub(r"[τx][0-9₀-₉]+", "v", str(x))
+        stats["composite_probes"] = stats.get("composite_probes", 0) + 1
+        if norm(after) != norm(fresh):
+            rep.violation(f"composite_{stats['composite_probes']}", {"kind": "oracle",
+                "what": "the typed expansion of a composite operator after a history differs from the one in a "
+                        "fresh identical language",
+                "hierarchy": h.to_json(), "operators": "wrap : x ** Fc(x); unwrap : Fc(x) ** x; idp : x ** x; "
+                    "roundtrip = \\v. unwrap (wrap v) : x ** x; twice = \\f v. f (f v) : (x ** x) ** x ** x; "
+                    "wrap2 = \\v. wrap (wrap v) : x ** Fc(Fc(x))",
+                "history": hist, "probe": probe, "after_history": str(after), "fresh": str(fresh)}, has_input=True)
+
+
 def main(tier: str, seed: int, replay: str | None = None) -> int:
     C.force_repo_on_path()
     rep = C.Report("C16", tier, seed)
@@ -165,6 +238,7 @@ def main(tier: str, seed: int, replay: str | None = None) -> int:
             if len(samples) < 3 and len(hist) >= 4 and after["err"] is None:
                 samples.append({"history": hist, "probe": text, "root_type": repr(after["vals"][-1])})
         items.append((h, progs))
+        composite_histories(rep, rng, h, 6 if tier == "quick" else 20, stats)
     dumps = E.model_eval(f"C16_{tier}", items, check=False)
     dis = 0
     for (hj, text, after), rows in zip(metas, [r for rl in dumps for r in rl]):
@@ -184,7 +258,8 @@ def main(tier: str, seed: int, replay: str | None = None) -> int:
                 "valid parses, failing parses (bracket, unknown token, missing input, duplicated text, leading colon), "
                 "using a constant at one particular type, using one operator on arguments made for its parameters, validate, printing signatures, instantiating/fixing operator types, applying them, parse_type with "
                 "wildcards, add_expr, add_vocabulary, query construction; histories accumulate over the probes of a "
-                "language; non-trivial = history of >= 3 operations",
+                "language; non-trivial = history of >= 3 operations; plus, per hierarchy, histories over a language with "
+                "polymorphic COMPOSITE operators (validate, primitive() at some type) and a probe expansion at another type",
         "outcome_distribution": stats, "samples": samples, "exhaustive": False})
     rep.assumptions = [
         "the model has no shared mutable definitions by construction; history independence of the model's store is the theorem, "
